@@ -191,7 +191,8 @@ def freshLabels (m : SrcMap) : Bool := m.lists.all fun p => freshFrame p.2
 
 def classHasListDefault (lc : ListClass) : Bool := lc.props.any fun p => p.2.2 == Dflt.emptyList
 
-/-- some list class the converter casts into declares a `[]` default (Quaver `keysounds`: finding D08) -/
+/-- some list class the converter casts into declares a `[]` default (Quaver `keysounds`; before D08 was repaired
+`empty` left NaN there) -/
 def tgtHasListDefault (T : Tables) (c : Conv) : Bool :=
   c.casts.any fun cc => match findClass T.lcs cc.cls with
     | some lc => classHasListDefault lc
